@@ -314,6 +314,7 @@ def classify(p):
 
 def main():
     chk = Check("C18", "exploration")
+    chk.max_inconclusive = 0    # deterministic component-level cases: an undecided chunk makes the whole check inconclusive
     assert_repo()
     from vlib.farm import run_cases
 
